@@ -43,6 +43,12 @@ CLAIMS = {
     "C15": ("property-based testing (rapid) against a reference diagnostics model (effective schema computed on the serialisable model; injected violations at any depth)",
             "Generated schemas and configurations with injected violations; the expected multiset of (severity, summary, subject) is computed by a reference model written from the statement over the model schema (own dependent-body selection and overlay) and the parser's AST, and compared with ValidateFile / Validate.",
             "4/C15", TRUST + " Regions the statement leaves open (dynamic blocks, null/unknown key values, ambiguous two-level keys) are excluded from both sides and counted."),
+    "C12": ("property-based testing (rapid): validity predicate on every hover result plus a reference model for names, block types and labels (effective schema on the serialisable model, cursor classified on the parser AST)",
+            "Every cursor of generated valid, edited and half-typed files: a hover is an error/nothing or non-empty content with a valid range containing the cursor; on attribute names, block types and labels the content, description (static + selected dependent body) and range are compared with the model; unknown elements must yield nothing; inside values the range must stay inside the value.",
+            "4/C12", TRUST + " Which sub-expression a value hover describes is bounded by range containment only."),
+    "C13": ("property-based testing (rapid): ordering/disjointness invariants on all files; structural-token exactness and literal tokens against a reference model",
+            "Generated files incl. broken ones: tokens sorted, disjoint, non-empty, advertised types, deterministic. Against the model: attribute-name / block-type / label tokens are exactly the schema-known elements with inherited modifiers, nothing marks unknown attributes / blocks / surplus labels, value tokens stay inside known values, plain literals carry exactly their literal token.",
+            "4/C13", TRUST + " Reference-step and function-name tokens are bounded (inside known values) rather than compared one by one."),
 }
 
 def main():
